@@ -22,9 +22,13 @@ from .chip_rcs380 import SimRcs380
 
 
 class FaultI(Fault):
-    def __init__(self, at, kind, arg=0, idx=0):
+    """idx: which register value a "regval" fault replaces; nbtg: the "status" byte is InListPassiveTarget's number
+    of targets -- a chip that found nothing (answer 00, no target data) keeps saying so"""
+
+    def __init__(self, at, kind, arg=0, idx=0, nbtg=False):
         Fault.__init__(self, at, kind, arg)
         self.idx = idx
+        self.nbtg = nbtg
 
 
 # what the chip answers when the scripted air has nothing more to say (None = no response frame at all: the
@@ -51,7 +55,17 @@ class SimPn53xOps(SimPn53x):
 
     def execute(self, code, data):
         f0 = self.fault
-        mine = (f0 is not None and f0.at == self.ncmd + 1 and f0.kind == "regval" and getattr(f0, "idx", 0))
+        here = f0 is not None and f0.at == self.ncmd + 1
+        if here and f0.kind == "status" and getattr(f0, "nbtg", False):
+            self.fault = None
+            try:
+                _, rsp = SimPn53x.execute(self, code, data)
+            finally:
+                self.fault = f0
+            if rsp is not None and len(rsp) > 1:
+                rsp = bytes([f0.arg]) + bytes(rsp[1:])
+            return f0, rsp
+        mine = here and f0.kind == "regval" and getattr(f0, "idx", 0)
         if not mine:
             return SimPn53x.execute(self, code, data)
         self.fault = None
@@ -86,6 +100,7 @@ class SimRcs380Ops(SimRcs380):
     def __init__(self):
         SimRcs380.__init__(self)
         self.script = {}
+        self.clock = None            # virtual clock: a silent air costs the receive timeout the host asked for
 
     def set_script(self, script):
         self.script = {code: list(q) for code, q in (script or {}).items()}
@@ -95,6 +110,10 @@ class SimRcs380Ops(SimRcs380):
             q = self.script[code]
             if q:
                 return q.pop(0)
+            if self.clock is not None and code == 0x04 and len(data) >= 2:
+                self.clock.advance((data[0] | data[1] << 8) / 1e4)              # units of 100 us
+            if self.clock is not None and code == 0x48 and len(data) >= 33:
+                self.clock.advance((data[31] | data[32] << 8) / 1e3)            # ms
             return {0x04: IN_SILENT, 0x48: TG_SILENT}.get(code, b"\x00")
         return SimRcs380._default(self, code, data)
 
